@@ -220,9 +220,16 @@ loop:
 				}
 
 				if ad.conn != nil {
-					// dial to this addr was successful, complete the request
-					req.resch <- dialResponse{conn: ad.conn}
-					continue loop
+					if !ad.conn.IsClosed() {
+						// dial to this addr was successful, complete the request
+						req.resch <- dialResponse{conn: ad.conn}
+						continue loop
+					}
+					// The connection we got from this addr has been closed in the
+					// meantime. Don't hand it out. We dial every address only once,
+					// so for the rest of this dial the address counts as failed.
+					ad.conn = nil
+					ad.err = ErrConnClosed
 				}
 
 				if ad.err != nil {
